@@ -258,6 +258,8 @@ func startServer(ip string, port int, spec string) (*running, error) {
 		cert = w.ca1.leaf("crypki", ips, now.Add(-2*time.Hour), now.Add(-time.Hour), false)
 	case "notyet":
 		cert = w.ca1.leaf("crypki", ips, now.Add(time.Hour), now.Add(2*time.Hour), false)
+	case "lapsing": // valid while the signer is being set up, expired by the time of the signing call
+		cert = w.ca1.leaf("crypki", ips, now.Add(-time.Hour), now.Add(3*time.Second), false)
 	case "wrongname":
 		cert = w.ca1.leaf("crypki", []net.IP{net.ParseIP("10.9.9.9")}, now.Add(-time.Hour), now.Add(time.Hour), false)
 	case "tls12": // exactly TLS 1.2: genuine
@@ -373,7 +375,11 @@ func runSign(args []string) []string {
 	if err != nil {
 		return []string{"newerr"}
 	}
-	req := &proto.SSHCertificateSigningRequest{KeyMeta: &proto.KeyMeta{Identifier: "id"}, Principals: []string{"alice"}, Validity: 3600, KeyId: "the-key-id",
+	if strings.Contains(args[0], "lapsing:") {
+		// the signer exists; let the lapsing server certificates run out before the signing call
+		time.Sleep(4500 * time.Millisecond)
+	}
+	req := &proto.SSHCertificateSigningRequest{KeyMeta: &proto.KeyMeta{Identifier: "id"}, Principals: []string{"zoe", "adam", "mallory"}, Validity: 3600, KeyId: "the-key-id",
 		PublicKey: string(ssh.MarshalAuthorizedKey(w.userKey))}
 	ctx, cancel := context.WithTimeout(context.Background(), 20*time.Second)
 	defer cancel()
@@ -396,12 +402,16 @@ func runSign(args []string) []string {
 	}
 	var calls, saw []string
 	unmodified := "1"
+	// the caller's own request object is as it was
+	if strings.Join(req.Principals, ",") != "zoe,adam,mallory" || req.KeyId != "the-key-id" || req.Validity != 3600 || req.KeyMeta.GetIdentifier() != "id" {
+		unmodified = "0"
+	}
 	for _, r := range rs {
 		r.ss.mu.Lock()
 		calls = append(calls, strconv.Itoa(r.ss.calls))
 		saw = append(saw, hx.B01(r.ss.sawCl))
 		for _, q := range r.ss.reqs {
-			if q != "the-key-id|alice|3600" {
+			if q != "the-key-id|zoe,adam,mallory|3600" {
 				unmodified = "0"
 			}
 		}
@@ -431,6 +441,9 @@ func genSign(g *hx.Gen, out *hx.Out) {
 	for _, b := range []string{"empty", "garbage", "slow"} {
 		sets = append(sets, []string{"good1:require:" + b + "|good1:none:ok.2.c", "2", "1"})
 	}
+	// a server certificate that runs out between the set-up of the signer and the signing call
+	sets = append(sets, []string{"lapsing:none:ok.1.c|good2:none:ok.2.c", "2", "1"})
+	sets = append(sets, []string{"lapsing:require:ok.1.c", "2", "1"})
 	for _, id := range []string{"otherca", "selfsigned", "expired", "notyet", "wrongname", "tls11", "tls10", "down"} {
 		sets = append(sets, []string{id + ":none:ok.1.c|good1:require:ok.1.c", "2", "1"})
 		sets = append(sets, []string{id + ":request:ok.1.c|" + id + ":none:ok.1.c|good2:none:ok.3.sp", "2", "1"})
